@@ -53,9 +53,12 @@ func genPair(t *rapid.T, tier string, o core.GenOpts, persistedOnly bool) PairCa
 	case "unrelated":
 		c.Delta = append(core.GenFillCfg(t, c.Cfg, pool), core.GenProgram(t, core.WithBulk(pairBaseWeights, c.Cfg), 25, 1)...)
 	}
-	res := []string{"memory", "persisted", "reloaded"}
+	// residency of each side: "memory" (never persisted), "persisted" (the handle that wrote it), "reloaded" (opened from its root through
+	// the world's cache), "reloaded-nocache" / "reloaded-newcache" (opened through no cache / a cache of its own, so the two handles of a
+	// pair need not share one), "clone2" (an unsaved clone of a clone)
+	res := []string{"memory", "memory", "persisted", "persisted", "reloaded", "reloaded", "reloaded-nocache", "reloaded-newcache", "clone2"}
 	if persistedOnly {
-		res = []string{"reloaded", "reloaded", "persisted"}
+		res = []string{"reloaded", "reloaded", "reloaded", "persisted", "persisted", "reloaded-nocache", "reloaded-newcache"}
 	}
 	c.OldRes = rapid.SampledFrom(res).Draw(t, "oldres")
 	c.NewRes = rapid.SampledFrom(res).Draw(t, "newres")
@@ -167,13 +170,30 @@ func buildPair(c PairCase, o *run.Obs) (*pair, bool) {
 	}
 	settle := func(w *core.World, t *core.Tree, res string) (*core.Tree, *core.SavedRoot, bool) {
 		switch res {
-		case "persisted", "reloaded":
+		case "clone2":
+			c1, err := w.Clone(t)
+			if err != nil {
+				return nil, nil, false
+			}
+			c2, err := w.Clone(c1)
+			if err != nil {
+				return nil, nil, false
+			}
+			return c2, nil, true
+		case "persisted", "reloaded", "reloaded-nocache", "reloaded-newcache":
 			sr, err := w.Persist(t)
 			if err != nil {
 				return nil, nil, false
 			}
-			if res == "reloaded" {
-				lt, err := w.Load(sr, nil, w.Cache, false)
+			if res != "persisted" {
+				cache := w.Cache
+				switch res {
+				case "reloaded-nocache":
+					cache = nil
+				case "reloaded-newcache":
+					cache, _ = core.MakeCache("big")
+				}
+				lt, err := w.Load(sr, nil, cache, false)
 				if err != nil {
 					return nil, nil, false
 				}
